@@ -241,6 +241,17 @@ func (g *gen) signerOps() {
 
 var clockOffsets = []int64{-1e9, -2, -1, 0, 1, 2, 1e9}
 
+// reps calls f with the `rep=` suffixes to try at a boundary instant: at the
+// instant itself and one nanosecond either side every representation, elsewhere none.
+func reps(off int64, f func(suffix string)) {
+	f("")
+	if off >= -1 && off <= 1 {
+		for r := 1; r < nReps; r++ {
+			f(fmt.Sprintf(" rep=%d", r))
+		}
+	}
+}
+
 func (g *gen) sessionOps() {
 	g.stream("sessions")
 	maxes := []int64{0, -1e9, 1, 1e9, 3600e9, 7 * 24 * 3600e9, 1 << 61}
@@ -260,15 +271,25 @@ func (g *gen) sessionOps() {
 		exp := expT.UnixNano()
 		body := append(le64(exp), d...)
 		g.add(fmt.Sprintf("sessnew k=%s max=%d now=%d ttl=%d d=%s %s", hx.Hex(k), mx, now, ttl, hx.Hex(d), macsOf(k, body)))
+		sfx := ""
 		chk := func(t []byte, at int64, op string) {
-			g.add(fmt.Sprintf("%s k=%s max=%d now=%d s=%s %s", op, hx.Hex(k), mx, at, hx.Hex(t), macsOf(k, dataPartHex(t))))
+			g.add(fmt.Sprintf("%s k=%s max=%d now=%d s=%s %s%s", op, hx.Hex(k), mx, at, hx.Hex(t), macsOf(k, dataPartHex(t)), sfx))
 		}
 		// the clock swept across the expiry instant and the issue instant
 		for _, off := range clockOffsets {
-			chk([]byte(tok), exp+off, "sesscheck")
-			chk([]byte(tok), exp+off, "gatecheck")
-			chk([]byte(tok), now+off, "sesscheck")
-			g.rep.Count("sessions:clock")
+			reps(off, func(x string) {
+				sfx = x
+				chk([]byte(tok), exp+off, "sesscheck")
+				chk([]byte(tok), exp+off, "gatecheck")
+				chk([]byte(tok), now+off, "sesscheck")
+				g.rep.Count("sessions:clock")
+			})
+		}
+		sfx = ""
+		if i%4 == 0 { // issuing with another representation of the same instant gives the same token
+			for r := 1; r < nReps; r++ {
+				g.add(fmt.Sprintf("sessnew k=%s max=%d now=%d ttl=%d d=%s %s rep=%d", hx.Hex(k), mx, now, ttl, hx.Hex(d), macsOf(k, body), r))
+			}
 		}
 		// refresh boundary of the gate: left = ttl/5 -1, 0, +1
 		if mx > 5 {
@@ -316,14 +337,24 @@ func (g *gen) timeOps() {
 		ts.TimeFunc = func() time.Time { return tm(t) }
 		tok := ts.Token()
 		g.add(fmt.Sprintf("ttoken k=%s now=%d %s", hx.Hex(k), t, macsOf(k, le64(t))))
+		sfx := ""
 		chk := func(m []byte, at int64) {
-			g.add(fmt.Sprintf("tcheck k=%s w=%d now=%d s=%s %s", hx.Hex(k), w, at, hx.Hex(m), macsOf(k, dataPartHex(m))))
+			g.add(fmt.Sprintf("tcheck k=%s w=%d now=%d s=%s %s%s", hx.Hex(k), w, at, hx.Hex(m), macsOf(k, dataPartHex(m)), sfx))
 		}
 		aw := absI(w)
 		for _, base := range []int64{t - aw, t, t + aw} {
 			for _, off := range clockOffsets {
-				chk([]byte(tok), base+off)
-				g.rep.Count("timetokens:clock")
+				reps(off, func(x string) {
+					sfx = x
+					chk([]byte(tok), base+off)
+					g.rep.Count("timetokens:clock")
+				})
+			}
+		}
+		sfx = ""
+		if i%4 == 0 {
+			for r := 1; r < nReps; r++ {
+				g.add(fmt.Sprintf("ttoken k=%s now=%d %s rep=%d", hx.Hex(k), t, macsOf(k, le64(t)), r))
 			}
 		}
 		// a payload that is longer or shorter than a timestamp
@@ -353,24 +384,29 @@ func (g *gen) timeOps() {
 		w := hx.Pick(g.r, []int64{1, 1e9, -30e9})
 		t := hx.Pick(g.r, []int64{1_700_000_000_000_000_000, 0, 1 << 60})
 		data := le64(t)
+		sfx := ""
 		chk := func(lbl string, at int64, data, hash, sig []byte) {
 			h := sha256sum(data)
 			vs := "0"
 			if rsaVerify(g.c.keys[lbl], hash, sig) {
 				vs = "1"
 			}
-			g.add(fmt.Sprintf("rsat pub=%s w=%d now=%d data=%s hash=%s sig=%s shas=%s:%s vs=%s:%s:%s:%s",
+			g.add(fmt.Sprintf("rsat pub=%s w=%d now=%d data=%s hash=%s sig=%s shas=%s:%s vs=%s:%s:%s:%s%s",
 				hx.Hex([]byte(lbl)), w, at, hx.Hex(data), hx.Hex(hash), hx.Hex(sig),
-				hx.Hex(data), hx.Hex(h), hx.Hex([]byte(lbl)), hx.Hex(hash), hx.Hex(sig), vs))
+				hx.Hex(data), hx.Hex(h), hx.Hex([]byte(lbl)), hx.Hex(hash), hx.Hex(sig), vs, sfx))
 		}
 		hash := sha256sum(data)
 		sig := rsaSign(key, data)
 		aw := absI(w)
 		for _, base := range []int64{t - aw, t, t + aw} {
 			for _, off := range clockOffsets {
-				chk(key.label, base+off, data, hash, sig)
+				reps(off, func(x string) {
+					sfx = x
+					chk(key.label, base+off, data, hash, sig)
+				})
 			}
 		}
+		sfx = ""
 		chk("k"+fmt.Sprint((i+1)%3), t, data, hash, sig) // another key
 		long := append(append([]byte{}, data...), 7)
 		chk(key.label, t, long, hash, sig)
@@ -394,6 +430,7 @@ func (g *gen) timeOps() {
 		if err != nil {
 			continue
 		}
+		sfx := ""
 		chk := func(bs []byte, at int64) {
 			ct := "ct=."
 			if ok, d := s.Check(bs); ok {
@@ -405,13 +442,17 @@ func (g *gen) timeOps() {
 					ct = fmt.Sprintf("ct=%s:nil", hx.Hex(d))
 				}
 			}
-			g.add(fmt.Sprintf("chal k=%s now=%d w=%d t=%s %s %s", hx.Hex(k), at, w, hx.Hex(bs), macsOf(k, dataPart(bs)), ct))
+			g.add(fmt.Sprintf("chal k=%s now=%d w=%d t=%s %s %s%s", hx.Hex(k), at, w, hx.Hex(bs), macsOf(k, dataPart(bs)), ct, sfx))
 		}
 		for _, base := range []int64{t, t + w} {
 			for _, off := range clockOffsets {
-				chk(signed, base+off)
+				reps(off, func(x string) {
+					sfx = x
+					chk(signed, base+off)
+				})
 			}
 		}
+		sfx = ""
 		chk(s.Sign([]byte(`{"N":"x"}`)), t)         // no timestamp
 		chk(s.Sign([]byte(`not json`)), t)          // MAC right, JSON wrong
 		chk(s.Sign([]byte(`{"T":{"Sec":"a"}}`)), t) // MAC right, JSON type error
@@ -529,6 +570,16 @@ func (g *gen) jwtMutations(tok string, each func(m string, kind string)) {
 	each(strings.NewReplacer("-", "+", "_", "/").Replace(tok), "std-alphabet")
 }
 
+// nearBoundary returns at-b when at is within one nanosecond of a boundary b, and 2 otherwise.
+func nearBoundary(at int64, bs ...int64) int64 {
+	for _, b := range bs {
+		if d := at - b; d >= -1 && d <= 1 {
+			return d
+		}
+	}
+	return 2
+}
+
 func (g *gen) jwtTimes(iat, exp int64) []int64 {
 	var out []int64
 	for _, base := range []int64{(iat - 300) * 1e9, iat * 1e9, exp * 1e9} {
@@ -552,14 +603,19 @@ func (g *gen) jwtHS() {
 		if err != nil {
 			continue
 		}
+		sfx := ""
 		chk := func(t string, vk []byte, vkid string, at int64) {
-			g.add(fmt.Sprintf("jwths k=%s kid=%s now=%d tok=%s %s", hx.Hex(vk), hx.Hex([]byte(vkid)), at, hx.Hex([]byte(t)), jwtTables(t, vk)))
+			g.add(fmt.Sprintf("jwths k=%s kid=%s now=%d tok=%s %s%s", hx.Hex(vk), hx.Hex([]byte(vkid)), at, hx.Hex([]byte(t)), jwtTables(t, vk), sfx))
 		}
 		mid := (iat*1e9 + exp*1e9) / 2
 		for _, at := range g.jwtTimes(iat, exp) {
-			chk(tok, k, kid, at)
-			g.rep.Count("jwt-hs256:clock")
+			reps(nearBoundary(at, (iat-300)*1e9, iat*1e9, exp*1e9), func(x string) {
+				sfx = x
+				chk(tok, k, kid, at)
+				g.rep.Count("jwt-hs256:clock")
+			})
 		}
+		sfx = ""
 		// header pinning: other kid at the verifier; other headers in the token, MAC right
 		chk(tok, k, kid+"x", mid)
 		chk(tok, append(append([]byte{}, k...), 0), kid, mid)
@@ -709,12 +765,13 @@ func (g *gen) jwtRS() {
 			g.rep.Count("jwt-rs256:issue-refused")
 			continue
 		}
+		sfx := ""
 		chk := func(t string, vks []keySpec, at int64) {
-			g.add(fmt.Sprintf("jwtrs now=%d %s tok=%s %s", at, keysArg(vks), hx.Hex([]byte(t)), g.rsTables(t, vks)))
+			g.add(fmt.Sprintf("jwtrs now=%d %s tok=%s %s%s", at, keysArg(vks), hx.Hex([]byte(t)), g.rsTables(t, vks), sfx))
 		}
 		chkSelf := func(t string, vks []keySpec, at int64, u, h string) {
-			g.add(fmt.Sprintf("self now=%d %s user=%s host=%s tok=%s %s", at, keysArg(vks), hx.Hex([]byte(u)), hx.Hex([]byte(h)),
-				hx.Hex([]byte(t)), g.rsTables(t, vks)))
+			g.add(fmt.Sprintf("self now=%d %s user=%s host=%s tok=%s %s%s", at, keysArg(vks), hx.Hex([]byte(u)), hx.Hex([]byte(h)),
+				hx.Hex([]byte(t)), g.rsTables(t, vks), sfx))
 		}
 		times := g.jwtTimes(iat, exp)
 		for _, b := range []int64{nb * 1e9, na * 1e9} {
@@ -723,9 +780,16 @@ func (g *gen) jwtRS() {
 			}
 		}
 		for _, at := range times {
-			chk(tok, ks, at)
-			g.rep.Count("jwt-rs256:clock")
+			reps(nearBoundary(at, (iat-300)*1e9, iat*1e9, exp*1e9, nb*1e9, na*1e9), func(x string) {
+				sfx = x
+				chk(tok, ks, at)
+				if self && x != "" {
+					chkSelf(tok, ks, at, user, host)
+				}
+				g.rep.Count("jwt-rs256:clock")
+			})
 		}
+		sfx = ""
 		if self {
 			for _, uh := range [][2]string{{user, host}, {user + "x", host}, {user, host + "x"}, {"", host}, {user, ""}, {"", ""}} {
 				chkSelf(tok, ks, mid, uh[0], uh[1])
@@ -869,7 +933,9 @@ func (g *gen) passOps() {
 		}
 		for _, base := range []int64{t0 - 60e9, t0, t0 + exc} {
 			for _, off := range clockOffsets {
-				hist("create", issue(t0, ex), setup(base+off, "right"), setup(base+off+1, "right"))
+				reps(off, func(x string) {
+					hist("create", issue(t0, ex)+x, setup(base+off, "right")+x, setup(base+off+1, "right"))
+				})
 			}
 		}
 	}
@@ -932,7 +998,11 @@ func (g *gen) passOps() {
 					at = lastIssue + exc + hx.Pick(g.r, clockOffsets)
 				}
 				claim := hx.Pick(g.r, []string{"right", "right", "right", "wrong", "wrong", "old", "empty"})
-				ops = append(ops, setup(at, claim))
+				o := setup(at, claim)
+				if g.r.Intn(5) == 0 {
+					o += fmt.Sprintf(" rep=%d", 1+g.r.Intn(nReps-1))
+				}
+				ops = append(ops, o)
 			}
 			if g.r.Intn(4) == 0 {
 				now += hx.Pick(g.r, []int64{1, 1e9, 60e9, 300e9, 601e9})
